@@ -43,64 +43,121 @@ def run(ctx):
     lea(ctx)
 
 
-def run_mem_addr(ctx, m, reg_ok=True):
+def iced_reg_predicates(ctx):
+    facts, O = ctx.facts, ctx.oracle
+
+    def icpt(I, path, frame, t, name, args):
+        if name.startswith("iced_x86::Register::is_") and args:
+            a = I._deref_all(path, args[0])
+            if a[0] == "agg" and a[1] == "adt:iced_x86::Register":
+                rn = facts.enum_variant("iced_x86::Register", a[2])[0]
+                key = {"is_gpr8": "gpr8", "is_gpr16": "gpr16", "is_gpr32": "gpr32", "is_gpr64": "gpr64",
+                       "is_ip": "ip", "is_xmm": "xmm", "is_gpr": "gpr"}.get(name.rsplit("::", 1)[1])
+                if key:
+                    return [(A.INT(1 if O["registers"][rn][key] else 0, 8), path)]
+        return None
+    return icpt
+
+
+def run_mem_addr(ctx, m):
     facts, R = ctx.facts, ctx.roles
     pr = P.HandlerPrims(facts, R, {}, inline_mem_addr=True)
-    I = A.Interp(facts, intercept=pr.intercept)
+    pred = iced_reg_predicates(ctx)
+
+    def icpt(I, path, frame, t, name, args):
+        r = pred(I, path, frame, t, name, args)
+        if r is not None:
+            return r
+        return pr.intercept(I, path, frame, t, name, args)
+    I = A.Interp(facts, intercept=icpt)
     body = facts.bodies[R.mem_addr]
     outs = list(I.run(body, [P.self_ref(False), m], A.Path()))
     return outs, I
 
 
+def sreg(facts, name):
+    ev = facts.enum_variant_by_name(U.SREG_ENUM, name)
+    return ("agg", P.SREG, ev[0], ())
+
+
+# representative (base, index) register pairs per address-size class; the class decides the formula
+ADDR_CLASSES = {
+    "a64": ("RBX", "RSI", 64),
+    "a64-ext": ("R13", "R12", 64),
+    "a32(67h)": ("EBX", "ESI", 32),
+    "a32-ext(67h)": ("R13D", "R12D", 32),
+}
+
+
 def formula(ctx):
     ck, facts = ctx.check, ctx.facts
-    BASE = ("breg",)
-    INDEX = ("ireg",)
     scale = A.W(("scale",), 32)
     disp = A.W(("disp",), 64)
     fs = ("field", ("field", ("init", "self", 0), "state"), "fs")
     gs = ("field", ("field", ("init", "self", 0), "state"), "gs")
     n = 0
-    for hb in (False, True):
-        for hi in (False, True):
-            for seg in (None, "DS", "ES", "SS", "FS", "GS"):
-                m = memop(facts, base=A.SOME(BASE) if hb else A.NONE, index=A.SOME(INDEX) if hi else A.NONE,
-                          segment=A.SOME(seg_variant(facts, seg)) if seg else A.NONE, scale=scale, displacement=disp)
-                outs, I = run_mem_addr(ctx, m)
-                inst = "base=%s,index=%s,segment=%s" % (int(hb), int(hi), seg)
-                rets = [o for o in outs if o.kind == "return"]
-                bad = [o for o in outs if o.kind != "return"]
-                n += 1
-                if len(rets) != 1:
-                    ck.violation("C05.formula", inst, "%d result paths" % len(rets), witness=[repr(o) for o in outs][:5])
+    for cname, (breg, ireg, abits) in ADDR_CLASSES.items():
+        BASE, INDEX = sreg(facts, breg), sreg(facts, ireg)
+        for hb in (False, True):
+            for hi in (False, True):
+                if not hb and not hi and cname != "a64":
                     continue
-                got = sorted(map(repr, addends(rets[0].value)))
-                exp = []
-                if hb:
-                    exp.append(("reg", 64, BASE, 0))
-                if hi:
-                    exp.append(("bin", "Mul", A.W(("reg", 64, INDEX, 0), 64), ("cast", scale, 32, False, 64), 64))
-                exp.append(("disp",))
-                if seg == "FS":
-                    exp.append(fs)
-                if seg == "GS":
-                    exp.append(gs)
-                exps = sorted(map(repr, [U.strip(x) if x[0] != "bin" else x for x in exp]))
-                if got != exps:
-                    ck.violation("C05.formula", inst, "address = %s" % A.show(rets[0].value),
-                                 witness={"got": got, "expected": exps},
-                                 what="effective address is not base + index*scale + displacement + segment base")
-                else:
-                    ck.ok("C05.formula", inst)
-                # totality: no overflow-checked arithmetic anywhere on the path
-                ovf = [e for e in rets[0].path.events if e[0] == "assert"]
-                if ovf or bad:
-                    ck.violation("C05.total", inst, "overflow-checked arithmetic or abort in the address computation",
-                                 witness=[str(e[1:3]) for e in ovf] + [repr(o) for o in bad])
-                else:
-                    ck.ok("C05.total", inst)
-    ck.sample({"rule": "C05.formula", "classes": n, "example": "base+index*scale+disp+fs"})
-    ck.floor("address classes", n, 24)
+                for seg in (None, "DS", "ES", "SS", "FS", "GS"):
+                    m = memop(facts, base=A.SOME(BASE) if hb else A.NONE, index=A.SOME(INDEX) if hi else A.NONE,
+                              segment=A.SOME(seg_variant(facts, seg)) if seg else A.NONE, scale=scale, displacement=disp)
+                    outs, I = run_mem_addr(ctx, m)
+                    inst = "class=%s,base=%s,index=%s,segment=%s" % (cname, int(hb), int(hi), seg)
+                    rets = [o for o in outs if o.kind == "return"]
+                    bad = [o for o in outs if o.kind != "return"]
+                    n += 1
+                    if len(rets) != 1:
+                        ck.violation("C05.formula" if not bad else "C05.total", inst,
+                                     "%d result paths%s" % (len(rets), (", %s abort: %s" % (bad[0].cls, bad[0].msg)) if bad else ""),
+                                     where=bad[0].site if bad else None, witness=[repr(o) for o in outs][:5],
+                                     what="the address computation aborts for this register class" if bad else None)
+                        continue
+                    val = rets[0].value
+                    segadd = []
+                    body_t = val
+                    if abits == 32:
+                        # (base + index*scale + disp) & 0xffffffff, then the segment base
+                        parts = addends(val)
+                        inner = [p_ for p_ in parts if p_[0] == "bin" and p_[1] == "BitAnd" and A.is_int(p_[3]) and p_[3][1] == 0xFFFFFFFF]
+                        rest = [p_ for p_ in parts if p_ not in inner]
+                        if len(inner) != 1:
+                            ck.violation("C05.formula", inst, "32-bit effective address is not truncated to 32 bits: %s" % A.show(val),
+                                         what="address-size override: the sum must wrap at 2^32 before the segment base is added")
+                            continue
+                        got = sorted(map(repr, addends(inner[0][2]))) + sorted(map(repr, rest))
+                    else:
+                        got = sorted(map(repr, addends(val)))
+                    exp = []
+                    if hb:
+                        exp.append(("reg", abits, BASE, 0))
+                    if hi:
+                        exp.append(("bin", "Mul", A.W(("reg", abits, INDEX, 0), 64), ("cast", scale, 32, False, 64), 64))
+                    exp.append(("disp",))
+                    exps = sorted(map(repr, exp))
+                    segs = []
+                    if seg == "FS":
+                        segs.append(fs)
+                    if seg == "GS":
+                        segs.append(gs)
+                    exps = exps + sorted(map(repr, segs)) if abits == 32 else sorted(map(repr, exp + segs))
+                    if got != exps:
+                        ck.violation("C05.formula", inst, "address = %s" % A.show(val),
+                                     witness={"got": got, "expected": exps},
+                                     what="effective address is not base + index*scale + displacement + segment base")
+                    else:
+                        ck.ok("C05.formula", inst)
+                    ovf = [e for e in rets[0].path.events if e[0] == "assert"]
+                    if ovf or bad:
+                        ck.violation("C05.total", inst, "overflow-checked arithmetic or abort in the address computation",
+                                     witness=[str(e[1:3]) for e in ovf] + [repr(o) for o in bad])
+                    else:
+                        ck.ok("C05.total", inst)
+    ck.sample({"rule": "C05.formula", "classes": n, "example": "base+index*scale+disp (+fs|gs), wrapping at 2^32 with a 67h prefix"})
+    ck.floor("address classes", n, 78)
 
 
 def reg_accessor_accepts(ctx, accessor, regname):
@@ -145,44 +202,47 @@ def reg_accessor_accepts(ctx, accessor, regname):
 
 
 def base_classes(ctx):
-    """Every register the 64-bit decoder can report as memory base/index must be readable by
-    the accessor mem_addr uses (whose failure it unwraps)."""
+    """Every register the 64-bit decoder can report as memory base/index (64-bit GPRs; 32-bit GPRs with a 67h
+    prefix) must yield an address, not an abort: mem_addr is interpreted with each register in each position,
+    the register accessors evaluated on their own bodies."""
     ck, facts, O, R = ctx.check, ctx.facts, ctx.oracle, ctx.roles
     body = facts.bodies[R.mem_addr]
-    # which accessor does mem_addr use, and is its result unwrapped?
-    used = set()
-    unwrapped = False
-    for b in body["blocks"]:
-        t = b["term"]
-        if t["k"] == "call":
-            n = F.callee_name(t)
-            for w, p in R.reg_read.items():
-                if n == p:
-                    used.add(w)
-            if n.endswith("::expect") or n.endswith("::unwrap"):
-                unwrapped = True
-    if used != {64}:
-        ck.violation("C05.total", "mem_addr accessor", "reads base/index with accessor widths %s" % sorted(used))
-        return
     classes = {
         "gpr64": [r for r, i in O["registers"].items() if i["gpr64"]],
         "gpr32(67h prefix)": [r for r, i in O["registers"].items() if i["gpr32"]],
     }
+    scale = A.W(("scale",), 32)
+    disp = A.W(("disp",), 64)
     for cname, regs in classes.items():
         rejected = []
         for r in sorted(regs):
-            okr, why = reg_accessor_accepts(ctx, R.reg_read[64], r)
-            if okr is not True:
-                rejected.append((r, why))
+            if facts.enum_variant_by_name(U.SREG_ENUM, r) is None:
+                rejected.append((r, "not a SupportedRegister"))
+                continue
+            width = 64 if cname == "gpr64" else 32
+            okr, why = reg_accessor_accepts(ctx, R.reg_read[width], r)
+            for pos in ("base", "index"):
+                m = memop(facts, base=A.SOME(sreg(facts, r)) if pos == "base" else A.NONE,
+                          index=A.SOME(sreg(facts, r)) if pos == "index" else A.NONE,
+                          segment=A.NONE, scale=scale, displacement=disp)
+                outs, I = run_mem_addr(ctx, m)
+                bad = [o for o in outs if o.kind != "return"]
+                used = {e[1] for o in outs for e in o.path.events if e[0] == "reg_read"}
+                if bad or not outs:
+                    rejected.append((r, "%s: %s abort (%s)" % (pos, bad[0].cls, bad[0].msg) if bad else "no result"))
+                elif used != {width}:
+                    # mem_addr unwraps the accessor's result: the accessor must accept the register
+                    rejected.append((r, "%s: read with the %s-bit accessor (%s)" % (pos, sorted(used), why)))
+                elif okr is not True:
+                    rejected.append((r, "%s: accessor rejects it (%s), result unwrapped" % (pos, why)))
         inst = "base/index class=%s" % cname
-        if rejected and unwrapped:
-            ck.violation("C05.total", inst, "%d of %d registers rejected by reg_read_64, result unwrapped in mem_addr" % (
-                len(rejected), len(regs)), where="%s:%d" % (body["span"][0], body["span"][1]),
-                witness={"rejected": rejected[:4]},
+        if rejected:
+            ck.violation("C05.total", inst, "%d of %d registers abort the address computation (first: %s %s)" % (
+                len({x[0] for x in rejected}), len(regs), rejected[0][0], rejected[0][1]),
+                where="%s:%d" % (body["span"][0], body["span"][1]), witness={"rejected": rejected[:6]},
                 what="address-size override (32-bit base/index) aborts instead of computing the address")
         else:
-            ck.ok("C05.total", inst, len(regs))
-    # EIP-relative (67h + RIP-relative): the operand builder maps only RIP to 'no base'
+            ck.ok("C05.total", inst, len(regs) * 2)
     eip_path(ctx)
 
 
@@ -306,11 +366,12 @@ def lea(ctx):
         oc = O["codes"][code]
         where = U.handler_where(facts, D, code)
         nbits = {"r16_reg": 16, "r32_reg": 32, "r64_reg": 64}.get(oc["kinds"][0])
-        for seg in ("DS", "FS", "GS"):
+        for seg, cname in (("DS", "a64"), ("FS", "a64"), ("GS", "a64"), ("FS", "a32(67h)"), ("DS", "a32(67h)")):
             shape = hm.shapes(code)[0]
             label, kinds, spec = shape
             d = D.codes[code]
-            m = memop(facts, base=A.SOME(("breg",)), index=A.SOME(("ireg",)),
+            breg, ireg, abits = ADDR_CLASSES[cname]
+            m = memop(facts, base=A.SOME(sreg(facts, breg)), index=A.SOME(sreg(facts, ireg)),
                       segment=A.SOME(seg_variant(facts, seg)), scale=scale, displacement=disp)
 
             class Pr(P.HandlerPrims):
@@ -319,10 +380,15 @@ def lea(ctx):
                         return ("agg", P.OPERAND, P.OP_MEMORY, (m,))
                     return P.HandlerPrims.operand_value(self, path, k)
             pr = Pr(facts, ctx.roles, spec, code=code, mnemonic=d["mnemonic"], opkinds=kinds, inline_mem_addr=True)
-            I = A.Interp(facts, intercept=pr.intercept)
+            pred = iced_reg_predicates(ctx)
+
+            def icpt(I_, path, frame, t, name, args, pr=pr, pred=pred):
+                r_ = pred(I_, path, frame, t, name, args)
+                return r_ if r_ is not None else pr.intercept(I_, path, frame, t, name, args)
+            I = A.Interp(facts, intercept=icpt)
             outs = list(I.run(facts.bodies[d["handler"]], [P.self_ref(), P.INSTR], A.Path()))
             rets = [o for o in outs if o.kind == "return"]
-            inst = "Code=%s,segment=%s" % (code, seg)
+            inst = "Code=%s,segment=%s,class=%s" % (code, seg, cname)
             if not rets:
                 ck.violation("C05.lea", inst, "no success path", where=where, witness=[repr(o) for o in outs][:4])
                 continue
